@@ -226,7 +226,7 @@ def uniq(sequence: ArrayT, key: object = None) -> list[object]:
         for obj in sequence:
             try:
                 item = obj[key]
-            except KeyError:
+            except (KeyError, IndexError):
                 item = MISSING
             except TypeError as err:
                 raise FilterArgumentError(
@@ -246,12 +246,20 @@ def uniq(sequence: ArrayT, key: object = None) -> list[object]:
 def compact(sequence: ArrayT, key: object = None) -> list[object]:
     """Return a copy of _sequence_ with any nil values removed."""
     if key is not None:
-        try:
-            return [itm for itm in sequence if itm[key] is not None]
-        except TypeError as err:
-            raise FilterArgumentError(
-                f"can't read property '{key}'", token=None
-            ) from err
+        result = []
+        for itm in sequence:
+            try:
+                val = itm[key]
+            except (KeyError, IndexError):
+                # A missing property is nil.
+                continue
+            except TypeError as err:
+                raise FilterArgumentError(
+                    f"can't read property '{key}'", token=None
+                ) from err
+            if val is not None:
+                result.append(itm)
+        return result
     return [itm for itm in sequence if itm is not None]
 
 
